@@ -449,3 +449,18 @@ package pdf
 //@   requires opt != nil && r != nil
 //@   ensures err == nil ==> !exit
 //@   ensures err != nil && !malformed(err) ==> exit
+
+// ---- classic cross-reference sections (7.5.4): the first (= newest) entry for a number wins ----
+//@ func decodeXRefSection (xref, s, start, end) (err)
+//@   tags C04 C05 C19
+//@   requires s != nil && R(s) && xref != nil && start <= end && end <= 16777216
+//@   assigns s.filePos, s.pos, s.used, s.err, elems(s.buf), s.src.rdpos, mapof(xref)
+//@   ensures R(s) && scanFrame(s)
+//@   ensures (start != 1 || (old(0 in xref) && old(xref[0]) != nil)) ==> forall k int :: old(k in xref) && old(xref[k]) != nil ==> (k in xref) && xref[k] == old(xref[k])
+//@   ensures (start != 1 || (old(0 in xref) && old(xref[0]) != nil)) ==> forall k int :: (k in xref) && !old(k in xref) ==> start <= k && k < end
+//@   ensures forall k int :: (k in xref) && !old(k in xref) ==> start <= k + 1 && k < end
+//@   loop 1: invariant R(s) && scanFrame(s) && start <= i && i <= end && (offByOne == 0 || (offByOne == 1 && start == 1 && !(old(0 in xref) && old(xref[0]) != nil)))
+//@   loop 1: invariant (start != 1 || (old(0 in xref) && old(xref[0]) != nil)) ==> forall k int :: old(k in xref) && old(xref[k]) != nil ==> (k in xref) && xref[k] == old(xref[k])
+//@   loop 1: invariant (start != 1 || (old(0 in xref) && old(xref[0]) != nil)) ==> forall k int :: (k in xref) && !old(k in xref) ==> start <= k && k < i
+//@   loop 1: invariant forall k int :: (k in xref) && !old(k in xref) ==> start <= k + 1 && k < i
+//@   loop 1: decreases end - i
